@@ -2,4 +2,7 @@
 
 package all
 
-import _ "verif/harness/internal/props/c14"
+import (
+	_ "verif/harness/internal/props/c14"
+	_ "verif/harness/internal/props/c14/handler"
+)
